@@ -1108,6 +1108,8 @@ int do_rename (char *fr, char *t, int flag) {
       while (*p == '/' && (p > from))
         p--;
       n = p - from + 1;
+      if (n >= (ptrdiff_t) sizeof (newfrom))
+        error ("File path too long.");
       memcpy (newfrom, from, n);
       newfrom[n] = 0;
       from = newfrom;
